@@ -2426,13 +2426,14 @@ def _sweep_recipe(seed, name, cplx, j):
     # ---- arguments of the entry
     args = []
     if name == "power":
-        args = [{"f": [r.ch(EXPONENTS) for _ in range(n)]}] if r.b(0.25) else [r.ch(EXPONENTS + [3, 1])]
+        args = [{"f": [r.ch(EXPONENTS) for _ in range(n)]}] if j % 4 == 3 else [r.ch(EXPONENTS + [3, 1])]
     elif name == "exponentiate":
-        args = [{"f": [r.dynz(0.25, 3.0, 8, signed=False) for _ in range(n)]}] if r.b(0.25) \
+        args = [{"f": [r.dynz(0.25, 3.0, 8, signed=False) for _ in range(n)]}] if j % 4 == 3 \
             else [r.dynz(0.25, 3.0, 8, signed=False)]
     elif name == "clip":
-        # bounds have mantissa 1.125 / 1.375: never on the grid of the arguments
-        w = r.i(0, 5)
+        # bounds have mantissa 1.125 / 1.375: never on the grid of the arguments; every form of the bounds
+        # (fields, None/number, number/None, ints, numbers) in each block of six cases
+        w = j % 6
         lo, hi = -1.125 * 2. ** r.i(-6, 6), 1.375 * 2. ** r.i(-6, 6)
         if r.b(0.3):
             lo = 1.125 * 2. ** r.i(-6, 4)
